@@ -160,6 +160,7 @@ Contract(
         c.f(c.arg("self"), PLACEMENT, "_computation") == c.arg("computation"),
         c.f(c.arg("self"), PLACEMENT, "_placement_time") == c.arg("placement_time"),
         c.f(c.arg("self"), PLACEMENT, "_worker_pool_id") == c.arg("worker_pool_id"),
+        c.f(c.arg("self"), PLACEMENT, "_worker_id") == c.arg("worker_id"),
         c.f(c.arg("self"), PLACEMENT, "_strategy") == c.arg("strategy"),
     ),
     note="Placement.__init__: verified; dropped: the assignment of the random 128-bit id (uuid.UUID(int=random.getrandbits(128))) -- the _id field is left unconstrained",
